@@ -33,13 +33,15 @@ var c12PatternSets = [][]string{
 	{"other.org", "*.example.com", "example.com:*"},
 	{"evil.com"},
 	{"EXAMPLE.com", "*.Example.Com"},
+	{"[a-z.example.com"},           // malformed glob: can authorise nothing
+	{"evil.com", "[bad", "other*"}, // a malformed pattern after a well formed one
 }
 
 func init() {
 	fw.Register(&fw.Prop{
 		ID:    "C12",
 		Level: "exploration",
-		Rule: "cases = the FULL cross product (Host header (6) x pattern set (8) x InsecureSkipVerify (2)) x an origin grammar built from parts: scheme (8 incl. none and 'null') x userinfo tricks (4) x host (same, mixed case, prefix/suffix/sub-domain look-alikes, trailing dot, foreign, IP, IPv6, empty) x port (none, default, other) x path / query / fragment containing the host; " +
+		Rule: "cases = the FULL cross product (Host header (6) x pattern set (10, two of them with a malformed glob) x InsecureSkipVerify (2)) x an origin grammar built from parts: scheme (8 incl. none and 'null') x userinfo tricks (4) x host (same, mixed case, prefix/suffix/sub-domain look-alikes, trailing dot, foreign, IP, IPv6, empty) x port (none, default, other) x path / query / fragment containing the host; " +
 			"the authority an origin names is known by construction and patterns are matched by the harness's own glob; verdicts are given where 'host' is unambiguous (see assumptions). distinct key = (verdict, host relation, port relation, pattern relation, where the look-alike sits)",
 		Exhaustive:  func(string) bool { return true },
 		Gen:         c12Gen,
@@ -128,6 +130,14 @@ func c12Run(r *fw.R, d c12Desc) {
 		{strings.Replace(base, ".", "-", 1), "dot-replaced"},
 	}
 	ports := []part{{"", "none"}, {":443", "443"}, {":80", "80"}, {":8080", "8080"}, {":1", "1"}}
+	if reqPort != "" && reqPort != "443" && reqPort != "80" && reqPort != "8080" && reqPort != "1" {
+		ports = append(ports, part{":" + reqPort, "host-port"})
+	}
+	if strings.HasPrefix(reqHost, "[") && len(reqHost) > 2 {
+		// a host that would match the Host header if the header were (wrongly) read as a glob: [::1] is a
+		// character class matching ":" or "1"
+		hosts = append(hosts, part{string(reqHost[len(reqHost)-2]), "member-of-bracket-class"})
+	}
 	paths := []part{{"", ""}, {"/", "/"}, {"/" + base, "host-in-path"}, {"/x/" + base + "/", "host-in-path2"}}
 	queries := []part{{"", ""}, {"?" + base, "host-in-query"}, {"?next=https://" + base + "/", "url-in-query"}}
 	frags := []part{{"", ""}, {"#" + base, "host-in-fragment"}, {"#@" + base, "at-host-in-fragment"}}
@@ -171,7 +181,15 @@ func c12Run(r *fw.R, d c12Desc) {
 								named := sc.tag != "schemeless" && sc.tag != "null" && hostname != ""
 								// pattern relations
 								patAuth, patHost, patEmpty := false, false, false
+								badSeen, goodAfterBad := false, false
 								for _, p := range d.Patterns {
+									if strings.Count(p, "[") != strings.Count(p, "]") {
+										badSeen = true // malformed: authorises nothing
+										continue
+									}
+									if badSeen && (glob(p, authority) || glob(p, hostname)) {
+										goodAfterBad = true // the library stops at the malformed pattern: no verdict
+									}
 									if glob(p, authority) {
 										patAuth = true
 									}
@@ -230,6 +248,12 @@ func c12Run(r *fw.R, d c12Desc) {
 									if strings.Contains(t, "host") || strings.Contains(t, "url") {
 										where += "+" + t
 									}
+								}
+								if goodAfterBad && verdict != 1 || (badSeen && verdict == 1 && !d.Skip && !(sameName && port == reqPort)) {
+									verdict, rel = -1, "pattern-after-malformed-pattern"
+								}
+								if badSeen && verdict == 0 {
+									rel += "/malformed-pattern-in-set"
 								}
 								c12One(r, d, origin, true, verdict, rel, where)
 							}
